@@ -150,6 +150,15 @@ var forms = []form{
 	{name: "let-inferred-thread", main: "fn w(x: int) -> int { x + 1 }\n" + m(`let h = spawn w(1); println(h.join());`)},
 	{name: "let-inferred-any", main: "import any_func from testing;\n" + m(`let y = any_func() as int; let z = "[1]".parse_json() as [int]; println(y, z);`)},
 
+	{name: "let-inferred-arrow", main: m(`let a = new { bar: "baz" } as { ? }; let v: ?str = a->bar; let w: ?str = a.get("bar"); println(v, w);`)},
+	{name: "let-builtin-fn-value", main: m(`let f = println; f("x", 1);`)},
+	{name: "let-member-fn-value", main: m(`let l = [1, 2]; let n = l.len; let c = l.contains; println(n(), c(2));`)},
+	{name: "let-never", main: "fn f() -> int { let x: int = throw(\"boom\"); x }\n" + m(`try { println(f()); } catch e { let c = e; println(c.message); }`)},
+	{name: "let-fn-returning-fn", main: m(`let f = fn() -> fn() -> int { fn() -> int { 3 } }; println(f()());`)},
+	{name: "object-underscore-keys", main: m(`let o = new { _: 1, _a: 2, a_: 3 }; println(o._a, o.a_, o["_"]);`)},
+	{name: "nested-multiline", main: m(`let o = new { a: [new { b: match 1 { 1 => "x\ny", _ => "z" }, c: if true { [1, 2] } else { [3] } }], "k k": fn() -> str { "in\n    fn" } }; println(o.a[0].b, o.a[0].c);`)},
+	{name: "singleton-ident-expr", main: "$S = { n: int, s: str };\nfn f(sg: $S) -> int { sg.n }\n" + m(`println(f());`), sing: map[string]hs.Value{"$S": sObj(4, "x")}},
+
 	// ------------------------------------------------------------------------------------------
 	// singletons, impl blocks, annotations, modifiers
 	{name: "singleton-param", main: "$S = { n: int, s: str };\nfn f(sg: $S, k: int) -> int { sg.n + k }\nfn g(sg: $S) -> str { sg.s }\n" + m(`println(f(1), g());`), sing: map[string]hs.Value{"$S": sObj(41, "hi")}},
